@@ -45,7 +45,12 @@ CHECKS = {
              ' Systematic part: every outcome sequence of length n+2 over the property\'s outcome alphabet for n <= 1 '
              '(quick) / n <= 3 (thorough) x single / batch / notification. History families: several requests on one '
              'long-lived client (the retry budget must be per request). Calls are also issued while the caller handles '
-             'an unrelated exception.',
+             'an unrelated exception. Concurrent family: two or three tasks use one asynchronous client (one client-wide '
+             'strategy, optional per-request strategies) at the same time, each request with its own per-attempt script, '
+             'every record attributed to its caller and judged per caller. Cancellation: on the asynchronous client the '
+             'caller task is cancelled at a seeded instant placed inside an attempt or a pause; what happened before '
+             'must be a prefix of the uncancelled behaviour, nothing is sent or slept afterwards and the caller is '
+             'released at that instant.',
         note='Trusted: ref_retry (closed formulas), the time seam (pjrpc.client.retry.time / .asyncio and time.sleep '
              'shimmed), SimNet. Jitter callables are constants; durations are dyadic rationals so equality is exact.',
         technique='deterministic simulation: scripted per-attempt fault sequences, virtual clock, reference retry model',
